@@ -56,7 +56,7 @@ def schedules(chk, q):
             rng = random.Random("%d/%s/%d" % (chk.seed, cfg, bi))
             sc, info = corerig.project_tunnel(beh, rng, sessions=sessions, name="c01-%s-%d" % (cfg[:-4], bi), big=0.04 if q else 0.06)
             sc["origin"] = {"module": "Tunnel_Gen", "config": cfg, "seed": chk.seed * 100,
-                            "steps": [[a, b] for a, b in beh if a in ("Pop", "WriteId", "WriteIdFails", "Cut", "Freeze", "AnswerLost", "StaleClose", "SrvDetach")]}
+                            "steps": [[a, b] for a, b in beh if a in ("Pop", "PopSkip", "MarkClosed", "WriteId", "WriteIdFailsMarked", "WriteIdFailsUnmarked", "Cut", "G_Cut", "Freeze", "AnswerLost", "StaleClose", "SrvDetach")]}
             out.append(sc)
             infos.append(info)
     # all maximal paths of the smallest configuration, one schedule per distinct projection
